@@ -705,7 +705,7 @@ def go : IExpr → Option Ty → GEnv → Scopes → St → Res
         finish i exp true (.constr it.1 ordered (ctorRet it.1)) Γ1 (s1.push c)
   | .array i items, exp, G, Γ, s =>
     -- `infer_array_expr`: the element variable first, every item inferred and equated with it
-    let v := s.mark.fresh
+    let v := s.fresh
     match goArr items v.1 G Γ v.2 with
     | none => none
     | some (ts, Γ1, s1) => finish i exp true (.array ts (.array items.length v.1)) Γ1 s1
